@@ -26,6 +26,9 @@ import (
 //     while that file is still open.
 //  4. appendCallers: every call of cmsys.AppendRecord in the repository and what the caller does with the
 //     error (see appendCallerVerdict): "propagates" / "ignores" / "retries" / "fallback:<writer>".
+//  5. appendIndex: for the same calls, what becomes of the index AppendRecord returned (see
+//     appendIndexVerdict): "returned" (it reaches the caller's result) / "dropped" / "local-use" /
+//     "recomputed:<expr>" (the caller reports an index it got some other way).
 func init() {
 	register("Lock", func(l *loader, repo, out string) {
 		lf := newLean("Lock")
@@ -97,11 +100,22 @@ func init() {
 
 		lf.raw("/-- caller of cmsys.AppendRecord ↦ what it does with the error. -/\n")
 		lf.raw("def appendCallers : List (String × String) := [")
-		for i, c := range appendCallers(all) {
+		callers := appendCallers(all)
+		for i, c := range callers {
 			if i > 0 {
 				lf.raw(", ")
 			}
 			lf.raw(fmt.Sprintf("(%q, %q)", c[0], c[1]))
+		}
+		lf.raw("]\n\n")
+
+		lf.raw("/-- caller of cmsys.AppendRecord ↦ what becomes of the index the call returned. -/\n")
+		lf.raw("def appendIndex : List (String × String) := [")
+		for i, c := range callers {
+			if i > 0 {
+				lf.raw(", ")
+			}
+			lf.raw(fmt.Sprintf("(%q, %q)", c[0], c[2]))
 		}
 		lf.raw("]\n")
 		lf.write(out)
@@ -588,8 +602,8 @@ func closesFile(info *types.Info, c *ast.CallExpr, file types.Object) bool {
 
 // appendCallers (fact 4): one entry per call of cmsys.AppendRecord in the repository, "<pkg>.<func>"
 // (with "#k" from the second call in one function on).
-func appendCallers(all []*packages.Package) [][2]string {
-	var out [][2]string
+func appendCallers(all []*packages.Package) [][3]string {
+	var out [][3]string
 	for _, pp := range all {
 		pk := strings.TrimPrefix(strings.TrimPrefix(pp.PkgPath, modPath), "/")
 		for _, f := range pp.Syntax {
@@ -615,7 +629,8 @@ func appendCallers(all []*packages.Package) [][2]string {
 						if k > 1 {
 							name += fmt.Sprintf("#%d", k)
 						}
-						out = append(out, [2]string{name, appendCallerVerdict(pp.TypesInfo, c, append([]ast.Node{}, stack...))})
+						st := append([]ast.Node{}, stack...)
+						out = append(out, [3]string{name, appendCallerVerdict(pp.TypesInfo, c, st), appendIndexVerdict(pp.TypesInfo, fd, c, st)})
 					}
 					return true
 				})
@@ -845,4 +860,224 @@ func isWriterName(n string) bool {
 		return true
 	}
 	return false
+}
+
+// ---------------------------------------------------------------- round 5: the index a caller reports
+
+func isSortIdx(t types.Type) bool {
+	n, ok := t.(*types.Named)
+	return ok && n.Obj().Name() == "SortIdx" && n.Obj().Pkg() != nil && n.Obj().Pkg().Path() == modPath+"/ptttype"
+}
+
+// appendIndexVerdict — what becomes of the index cmsys.AppendRecord returned:
+//
+//	"returned"           return cmsys.AppendRecord(…), or the index variable (assigned only by this call)
+//	                     reaches a return statement / a named result, directly or through assignments
+//	                     (summary = New…(idx, …); return summary)
+//	"dropped"            the index is not kept (`_`, bare call) and the function handles no other value
+//	                     of type ptttype.SortIdx: it reports no index
+//	"local-use"          kept, does not reach the result, and the function handles no other SortIdx value
+//	"recomputed:<expr>"  the index variable is assigned again, or the index is dropped / not returned while
+//	                     the function handles another ptttype.SortIdx value <expr> (e.g. the board total read
+//	                     after the lock was released)
+//	"unknown:<why>"      a shape this analysis does not recognise
+func appendIndexVerdict(info *types.Info, fd *ast.FuncDecl, call *ast.CallExpr, stack []ast.Node) string {
+	si := -1
+	for k := len(stack) - 1; k >= 0; k-- {
+		if _, ok := stack[k].(ast.Stmt); ok {
+			si = k
+			break
+		}
+	}
+	if si < 0 {
+		return "unknown:no-statement"
+	}
+	var idxObj types.Object
+	var own *ast.AssignStmt
+	switch s := stack[si].(type) {
+	case *ast.ReturnStmt:
+		if len(s.Results) == 1 && stripParen(s.Results[0]) == ast.Expr(call) {
+			return "returned"
+		}
+		return "unknown:return-shape"
+	case *ast.ExprStmt, *ast.GoStmt, *ast.DeferStmt:
+	case *ast.AssignStmt:
+		if len(s.Rhs) != 1 || stripParen(s.Rhs[0]) != ast.Expr(call) || len(s.Lhs) != 2 {
+			return "unknown:assign-shape"
+		}
+		id, ok := s.Lhs[0].(*ast.Ident)
+		if !ok {
+			return "unknown:index-target"
+		}
+		own = s
+		if id.Name != "_" {
+			if idxObj = identObj(info, id); idxObj == nil {
+				return "unknown:index-target"
+			}
+		}
+	default:
+		return "unknown:call-shape"
+	}
+	tainted := map[types.Object]bool{}
+	if idxObj != nil {
+		tainted[idxObj] = true
+		// assigned anywhere else?
+		again := ""
+		ast.Inspect(fd.Body, func(n ast.Node) bool {
+			switch s := n.(type) {
+			case *ast.AssignStmt:
+				if s == own {
+					return true
+				}
+				for i, lhs := range s.Lhs {
+					if identObj(info, lhs) == idxObj && again == "" {
+						again = "?"
+						if len(s.Lhs) == len(s.Rhs) {
+							again = types.ExprString(s.Rhs[i])
+						} else if len(s.Rhs) == 1 {
+							again = types.ExprString(s.Rhs[0])
+						}
+					}
+				}
+			case *ast.IncDecStmt:
+				if identObj(info, s.X) == idxObj && again == "" {
+					again = types.ExprString(s.X) + s.Tok.String()
+				}
+			case *ast.UnaryExpr:
+				if s.Op == token.AND && identObj(info, s.X) == idxObj && again == "" {
+					again = "&" + types.ExprString(s.X)
+				}
+			}
+			return true
+		})
+		if again != "" {
+			return "recomputed:" + again
+		}
+		// what the index flows into
+		mentions := func(n ast.Node) bool {
+			found := false
+			ast.Inspect(n, func(m ast.Node) bool {
+				if id, ok := m.(*ast.Ident); ok && tainted[info.Uses[id]] {
+					found = true
+				}
+				return !found
+			})
+			return found
+		}
+		rootObj := func(e ast.Expr) types.Object {
+			for {
+				switch x := e.(type) {
+				case *ast.SelectorExpr:
+					e = x.X
+				case *ast.IndexExpr:
+					e = x.X
+				case *ast.StarExpr:
+					e = x.X
+				case *ast.ParenExpr:
+					e = x.X
+				default:
+					return identObj(info, e)
+				}
+			}
+		}
+		for changed := true; changed; {
+			changed = false
+			ast.Inspect(fd.Body, func(n ast.Node) bool {
+				switch s := n.(type) {
+				case *ast.AssignStmt:
+					hit := false
+					for _, r := range s.Rhs {
+						if mentions(r) {
+							hit = true
+						}
+					}
+					if hit {
+						for _, lhs := range s.Lhs {
+							if o := rootObj(lhs); o != nil && !tainted[o] {
+								tainted[o] = true
+								changed = true
+							}
+						}
+					}
+				case *ast.ValueSpec:
+					hit := false
+					for _, r := range s.Values {
+						if mentions(r) {
+							hit = true
+						}
+					}
+					if hit {
+						for _, nm := range s.Names {
+							if o := info.Defs[nm]; o != nil && !tainted[o] {
+								tainted[o] = true
+								changed = true
+							}
+						}
+					}
+				}
+				return true
+			})
+		}
+		reaches := false
+		if fd.Type.Results != nil {
+			for _, f := range fd.Type.Results.List {
+				for _, nm := range f.Names {
+					if tainted[info.Defs[nm]] {
+						reaches = true
+					}
+				}
+			}
+		}
+		ast.Inspect(fd.Body, func(n ast.Node) bool {
+			if _, ok := n.(*ast.FuncLit); ok {
+				return false
+			}
+			if r, ok := n.(*ast.ReturnStmt); ok && mentions(r) {
+				reaches = true
+			}
+			return !reaches
+		})
+		if reaches {
+			return "returned"
+		}
+	}
+	// not returned: does the function handle an index it got some other way?
+	other, otherIdent := "", ""
+	ast.Inspect(fd.Body, func(n ast.Node) bool {
+		if n == ast.Node(call) || other != "" {
+			return false
+		}
+		e, ok := n.(ast.Expr)
+		if !ok {
+			return true
+		}
+		if id, ok := e.(*ast.Ident); ok {
+			o := info.Uses[id]
+			if o == nil {
+				o = info.Defs[id]
+			}
+			if o == nil || tainted[o] {
+				return true
+			}
+			if _, isVar := o.(*types.Var); isVar && isSortIdx(o.Type()) && otherIdent == "" {
+				otherIdent = id.Name
+			}
+			return true
+		}
+		if tv, ok := info.Types[e]; ok && !tv.IsType() && tv.Type != nil && isSortIdx(tv.Type) {
+			other = types.ExprString(e)
+			return false
+		}
+		return true
+	})
+	if other == "" {
+		other = otherIdent
+	}
+	if other != "" {
+		return "recomputed:" + other
+	}
+	if idxObj != nil {
+		return "local-use"
+	}
+	return "dropped"
 }
